@@ -1,0 +1,15 @@
+//go:build verif
+
+package hashbidimap
+
+import "github.com/emirpasic/gods/v2/maps/hashmap"
+
+// VerifInner returns the forward map.
+func (m *Map[K, V]) VerifInner() *hashmap.Map[K, V] {
+	return &m.forwardMap
+}
+
+// VerifInverse returns the inverse map.
+func (m *Map[K, V]) VerifInverse() *hashmap.Map[V, K] {
+	return &m.inverseMap
+}
